@@ -1,11 +1,11 @@
 CONSTANTS
-  Model = "univ"
+  Model = "family"
   MaxSteps = 3
   Hist = TRUE
-  AllowDie = FALSE
+  AllowDie = TRUE
   TransOnlyAsserted = FALSE
   TransOutOnly = FALSE
   NoInverseOfInferred = FALSE
   DirectSuperOnly = FALSE
 SPECIFICATION Spec
-CONSTRAINT Emit
+CONSTRAINT EmitDie
